@@ -43,4 +43,12 @@ PROPS = {
         "assumptions": ["strings are valid UTF-8", "the TLS/address-mapper part of connectclient_config.go only rewrites the URL scheme (checked in section D by the Host the loopback server sees, not proved)",
                         ".netrc theorems about file contents (netrc_plain_exact_or_default) cover the one-line spelling written by `buf registry login`; other layouts are covered at the machine-list level (netrc_exact_or_default) and by correspondence"],
     },
+    "C09": {
+        "harness": "c09", "protocol": "c09", "level": "proof", "stateful": True,
+        "rule": "per generated module pair (dep + main importing it; 1-5 .proto files, optional LICENSE/buf.md, optional v1 buf.yaml/buf.lock side files): (1) every prefix of the real store's primitive trace materialised as a crash state, loaded by the real reader and judged by the model, then repaired by a further store; (2) every single failing Put/Write/Close of the store (pairs in thorough); (3) every single-file flip/truncate/delete/rename, 5 added files, 5 marker corruptions of a complete entry; (4) tar layout: absent, garbage, truncated at 3 offsets, flipped/removed inner files; (5) 2-4 goroutines x 3 rounds of store+load on a disk bucket with the real file locker and seeded yields at the verif hook points; (6) the cache provider over a sound and a write-dropping store. Non-trivial: the load is not a plain miss; distinct = distinct protocol lines.",
+        "trusted_base": COMMON_TB + ["marker bytes are abstracted to canonical / other-deps / invalid by byte comparison in the harness",
+                                     "archive/tar decoding of truncated archives is taken from the library (storagearchive.Untar probe)",
+                                     "crash states are materialised with os.Create semantics for plain puts and all-or-nothing for atomic puts (the latter is C15's theorem + kill campaign)"],
+        "assumptions": ["SHAKE256 collision resistance", "flock gives mutual exclusion between processes", "only b5 module keys", "read-then-hash of one ModuleData is treated as one snapshot"],
+    },
 }
